@@ -270,6 +270,7 @@ func (x *Exec) verifyEntry(fn *ssa.Function, con *FnContract) {
 	// vacuity: the preconditions must be satisfiable
 	vac := x.oblige(fr, st, "vacuity", "requires-satisfiable", fn.Pos(), tFalse, "vacuity", "")
 	_ = vac
+	x.initCallCounters(fr, st, con)
 	fr.entrySt = st.clone()
 	x.root = fr
 	fr.regs = regs
